@@ -563,7 +563,13 @@ def extract_type(repo, blk, meta):
     kv = blk.kv
     rel = kv['file']
     src, toks = X.load(repo, rel)
-    a, e, ob = X.find_typedef(toks, kv['kind'], kv['name'])
+    try:
+        a, e, ob = X.find_typedef(toks, kv['kind'], kv['name'])
+    except X.LostAnchor:
+        if 'optional' not in blk.flags:
+            raise
+        # an item the code may or may not have (a constant introduced by a repair): without it nothing is emitted, and code that still names it does not compile (undecided)
+        return dict(lines=[], log=[('S', 'optional %s %s absent: not emitted' % (kv['kind'], kv['name']), 0)], hash=X.sha([]), file=rel, line=0, name=kv['name'])
     item = toks[a:e + 1]
     src_line = toks[a].line
     h = X.sha(item)
